@@ -1288,6 +1288,9 @@ func gsIsAdd(fam string, obj int, v any) bool { panic("ghost builtin") }
 
 func gsTagged[T any](fam string, obj int) bool { panic("ghost builtin") }
 
+// same: component-wise equality, also for struct types that Go cannot compare (slice fields).
+func same[T any](a, b T) bool { panic("ghost builtin") }
+
 func gsOthersSameByType[T any](fam string) bool { panic("ghost builtin") }
 
 func gsIsRemove(fam string, obj int, v any) bool { panic("ghost builtin") }
@@ -1992,3 +1995,38 @@ func specIfaceEnv(n *net.IPNet) bool {
 // The maps without a lock of their own are guarded by the request lock that SendMsgToUPF takes
 // (the DDN listener takes it around its look-up).
 //@ guarded UP4.meters, UP4.ueAddrToFSEID, UP4.fseidToUEAddr by UP4.storeMu
+
+// ---------------------------------------------------------------------------
+// C03 / C05: the session's rule lists (session_pdr.go, session_far.go, session_qer.go)
+// ---------------------------------------------------------------------------
+
+func specFirstPdrAt(s *PFCPSession, j int, id uint32) bool {
+	return lo(s.pdrs) <= j && j < hi(s.pdrs) && at(s.pdrs, j).pdrID == id &&
+		forall(func(i int) bool { return implies(lo(s.pdrs) <= i && i < j, at(s.pdrs, i).pdrID != id) })
+}
+
+func specNoPdr(s *PFCPSession, id uint32) bool {
+	return forall(func(i int) bool { return implies(lo(s.pdrs) <= i && i < hi(s.pdrs), at(s.pdrs, i).pdrID != id) })
+}
+
+//@ func (s *PFCPSession) RemovePDR(id uint32) (r *pdr, err error)
+//@   requires s != nil
+//@   logical j int
+//@   ensures C03.rmpdr.result: (err == nil) <==> (r != nil)
+//@   ensures C03.rmpdr.found: old[bool](specFirstPdrAt(s, j, id)) ==> err == nil && !allocated(r) && same(*r, old[pdr](at(s.pdrs, j))) && len(s.pdrs) == old[int](len(s.pdrs))-1 && sameArray(s.pdrs, old[[]pdr](s.pdrs)) && lo(s.pdrs) == old[int](lo(s.pdrs))
+//@   ensures C03.rmpdr.before: old[bool](specFirstPdrAt(s, j, id)) ==> forall i int :: lo(s.pdrs) <= i && i < j ==> same(at(s.pdrs, i), old[pdr](at(s.pdrs, i)))
+//@   ensures C03.rmpdr.after: old[bool](specFirstPdrAt(s, j, id)) ==> forall i int :: j <= i && i < hi(s.pdrs) ==> same(at(s.pdrs, i), old[pdr](at(s.pdrs, i+1)))
+//@   ensures C03.rmpdr.none: old[bool](specNoPdr(s, id)) ==> err != nil && len(s.pdrs) == old[int](len(s.pdrs)) && sameArray(s.pdrs, old[[]pdr](s.pdrs)) && (forall i int :: lo(s.pdrs) <= i && i < hi(s.pdrs) ==> same(at(s.pdrs, i), old[pdr](at(s.pdrs, i))))
+//@   loop 1 invariant C03.rmpdr.l1: rangeidx+1 <= len(s.pdrs) && (forall i int :: lo(s.pdrs) <= i && i < lo(s.pdrs)+rangeidx+1 ==> at(s.pdrs, i).pdrID != id) && same(s.pdrs, old[[]pdr](s.pdrs)) && (forall i int :: lo(s.pdrs) <= i && i < hi(s.pdrs) ==> same(at(s.pdrs, i), old[pdr](at(s.pdrs, i))))
+
+//@ func (s *PFCPSession) UpdatePDR(p pdr) (err error)
+//@   requires s != nil
+//@   logical j int
+//@   ensures C03.updpdr.found: old[bool](specFirstPdrAt(s, j, p.pdrID)) ==> err == nil && same(at(s.pdrs, j), p) && (forall i int :: lo(s.pdrs) <= i && i < hi(s.pdrs) && i != j ==> same(at(s.pdrs, i), old[pdr](at(s.pdrs, i))))
+//@   ensures C03.updpdr.none: old[bool](specNoPdr(s, p.pdrID)) ==> err != nil && (forall i int :: lo(s.pdrs) <= i && i < hi(s.pdrs) ==> same(at(s.pdrs, i), old[pdr](at(s.pdrs, i))))
+//@   ensures C03.updpdr.shape: same(s.pdrs, old[[]pdr](s.pdrs))
+//@   loop 1 invariant C03.updpdr.l1: rangeidx+1 <= len(s.pdrs) && (forall i int :: lo(s.pdrs) <= i && i < lo(s.pdrs)+rangeidx+1 ==> at(s.pdrs, i).pdrID != p.pdrID) && same(s.pdrs, old[[]pdr](s.pdrs)) && (forall i int :: lo(s.pdrs) <= i && i < hi(s.pdrs) ==> same(at(s.pdrs, i), old[pdr](at(s.pdrs, i))))
+
+//@ func (s *PFCPSession) CreatePDR(p pdr)
+//@   requires s != nil
+//@   ensures C03.crpdr: len(s.pdrs) == old[int](len(s.pdrs))+1 && same(at(s.pdrs, hi(s.pdrs)-1), p) && (forall i int :: 0 <= i && i < old[int](len(s.pdrs)) ==> same(at(s.pdrs, lo(s.pdrs)+i), old[pdr](at(s.pdrs, lo(s.pdrs)+i))))
